@@ -331,6 +331,10 @@ func checkRetryResult(c *Ctx, r *R, f *ssa.Function, name string, commitPats ...
 			// comes from must not be reachable from the commit call
 			if lf.Block != commit.Block() && !blockReaches(commit.Block(), lf.Block) {
 				r.OK(name+":initial-nil", lf.Pos, "nil reaches the return only without any commit attempt (zero iterations; excluded by Validate)")
+			} else if lf.GuardedBy(func(g Guard) bool {
+				return gNil(g, false, func(v ssa.Value) bool { cc, _ := originCall(v); return cc == commit })
+			}) {
+				r.OK(name+":nil-under-commit-ok", lf.Pos, "the literal nil is returned only where the commit call's error was tested to be nil")
 			} else {
 				r.Bad(name+":nil-after-commit", lf.Pos, "%s can return nil on a path after a commit attempt without that attempt's error being the result: a failed commit is acknowledged", name)
 			}
